@@ -75,6 +75,13 @@ def surface_layouts(access="rw", enums=True):
             fs = [Field("v", T_uint(5), [(4, 3), (0, 1), (9, 1)], None, access, list_split=1, list_split_other_kw=True),
                   Field("w", T_uint(4), [(12, 1), (14, 1), (10, 2)], None, access, list_split=2, list_split_other_kw=True, form="bit_list")]
             Ls.append(Layout(W, fs, tag=f"one list spread over a bits([..]) and a bit([..]) attribute (both orders) on u{W}"))
+    # another, very different, bitfield and bitenum declared just before in the same module: nothing of theirs
+    # (base width, default, debug, field names, access) may carry over into the next invocation of the macro
+    for (W, ob, od) in ((32, "u8", "0xff"), (24, "u128", "0x1"), (128, "u7", "0x55"), (8, "u64", "0xffff_ffff_ffff_ffff")):
+        other = (f"#[bitfield({ob}, default = {od}, debug)]\npub struct Other {{\n    #[bits(0..=6, rw)]\n    lo: u7,\n    #[bit(3, r)]\n    flag: bool,\n}}\n"
+                 "#[bitenum(u3, exhaustive = false)]\npub enum OtherE {\n    A = 1,\n    B = 6,\n}")
+        fs = [Field("lo", T_uint(3), [(1, 3)], None, access), Field("flag", T_bool(), [(W - 1, 1)], None, access), Field("w0", T_uint(2), [(4, 2)], None, access)]
+        Ls.append(Layout(W, fs, aux=[other], tag=f"u{W} bitfield declared right after a {ob} bitfield with default and debug and a bitenum in the same module"))
     if enums:
         e = full_enum("E2", 2)
         o = sparse_enum("E3N", 3, [0, 1, 5, 7], None)
@@ -1033,7 +1040,7 @@ def c08_layouts(tier, seed):
 
 
 def plan_c08(tier, seed):
-    Ls = c08_layouts(tier, seed) + [L for L in surface_layouts() if L.aux]
+    Ls = c08_layouts(tier, seed) + [L for L in surface_layouts() if any(isinstance(a_, EnumDef) for a_ in L.aux)]
     us = units_from(Ls, lambda L: sum([field_harnesses(L, f, "C08", oob=False) for f in L.fields], []))
     add_controls(us, "C08", kinds=("get", "set", "get"))
     return Plan(us, title="enum / custom typed fields", chunk=220 if tier == "quick" else 600,
